@@ -58,7 +58,7 @@ type faultProcess struct {
 	mu    sync.Mutex
 	id    uint64
 	c     *Cluster
-	stray []string // shares that arrived here although they were computed for somebody else
+	stray []string          // shares that arrived here although they were computed for somebody else
 	plan  map[string]string // "prepare" | "execute" | "contribute" -> "error-reply" (carried out, then answered with an error) | "refused" (not carried out)
 	fired map[string]int
 }
